@@ -200,6 +200,7 @@ pub fn run(prop: &dyn Prop, o: &Opts) -> i32 {
     let end = o.from + total;
     let accs: Mutex<Vec<Acc>> = Mutex::new(vec![]);
     let workers = o.workers.max(1);
+    let slow_ms: u64 = std::env::var("VERIF_SLOW_MS").ok().and_then(|s| s.parse().ok()).unwrap_or(0);
     std::thread::scope(|s| {
         for _ in 0..workers {
             s.spawn(|| {
@@ -211,7 +212,11 @@ pub fn run(prop: &dyn Prop, o: &Opts) -> i32 {
                     }
                     let mut rng = Rng::new(run_seed(o.seed, prop.id(), i));
                     let sc = prop.generate(i, &mut rng, o.tier);
+                    let t_run = Instant::now();
                     let out = prop.execute(&sc);
+                    if slow_ms > 0 && t_run.elapsed().as_millis() as u64 >= slow_ms {
+                        eprintln!("SLOW run {} {:?}ms mode={} trees={:?} feeds={:?}", i, t_run.elapsed().as_millis(), sc.mode, sc.trees.iter().map(|t| t.show()).collect::<Vec<_>>(), sc.feeds.iter().map(|f| f.len()).collect::<Vec<_>>());
+                    }
                     a.evals += 1;
                     if out.invalid.is_some() {
                         a.invalid += 1;
